@@ -114,6 +114,19 @@ def poll_leaf(ip, loc, leaf):
         write_loc(loc, Leaf(k, leaf.data, True))
         p.effect('ready', k, leaf.data)
         return ready(UNIT)
+    if k == 'http.send':
+        if may_pend(ip, 'http.send'):
+            return PENDING
+        write_loc(loc, Leaf(k, leaf.data, True))
+        from models_sync import HttpResponseM
+        # the endpoint's behaviour is arbitrary: any status code, or a transport error
+        if p.choose(2, 'http outcome') == 1:
+            p.effect('http.error')
+            return ready(err(Opaque('reqwest::Error')))
+        st = p.fresh('http_status')
+        p.assume(z3.And(st >= 100, st <= 999))       # http::StatusCode invariant
+        p.effect('http.response', st)
+        return ready(ok(HttpResponseM(st)))
     if k == 'join_next':
         set_loc = leaf.data
         js = read_loc(set_loc)
@@ -154,6 +167,11 @@ def poll_future(ip, loc):
         fn = ip.dump.functions[v.name[len('coroutine:'):]]
         pin = Agg('Pin', [Ref(loc, True)])
         r = yield from ip.call_fn(fn, [pin, Ref(Loc(Cell(Opaque('Context'), 'cx')), True)])
+        return r
+    if isinstance(v, Agg) and v.name == 'PollFn':
+        # tokio::future::poll_fn: the stored closure is called with the task context
+        clo_loc = loc.extend(('f', 0))
+        r = yield from ip.call_closure(Ref(clo_loc, True), [Ref(Loc(Cell(Opaque('Context'), 'cx')), True)])
         return r
     if isinstance(v, Agg) and v.name == 'Pin':
         r = yield from poll_future(ip, v.fields[0].loc)
@@ -244,6 +262,17 @@ def install(ctx):
         pin = args[0]
         r = yield from poll_future(ip, pin.fields[0].loc if isinstance(pin, Agg) else pin.loc)
         return r
+
+    @M.reg('poll_fn::poll_fn', 'poll_fn')
+    def poll_fn(ip, pc, args, dt):
+        return Agg('PollFn', [args[0]])
+
+    @M.reg('support::thread_rng_n', 'thread_rng_n')
+    def thread_rng_n(ip, pc, args, dt):
+        n = concrete_int(args[0].t)
+        k = ip.path.choose(n, 'select start')
+        ip.path.effect('select-start', k)
+        return mk_int(k, 'u32')
 
     @M.reg('JoinSet::new')
     def joinset_new(ip, pc, args, dt):
